@@ -46,11 +46,7 @@ fn main() {
                 eprintln!("cannot read {}", a[3]);
                 std::process::exit(2);
             };
-            let fails = if cf.kind == "exhaustive" {
-                props::replay_exhaustive(&spec, &PathBuf::from(&a[3]), !quiet)
-            } else {
-                runner::replay(&spec, &cf, !quiet)
-            };
+            let fails = runner::replay(&spec, &cf, !quiet);
             if fails.is_empty() {
                 if !quiet {
                     println!("replay: property {} holds on this case", spec.id);
